@@ -16,8 +16,8 @@ MANIFEST = {
             "enumerated quantities are member values of the regenerated simulator enumerations (every count, every traffic amount, "
             "component present / absent / node not ON), that the value `observe` returns is contained in `space` (gymnasium "
             "Discrete/Dict rule), that every `default_observation` is contained, that observing never changes the space, and that "
-            "this holds along every trajectory of states. ACL-carrying components: partial (hypothesis excludes rules naming an "
-            "address outside ip_list, num_rules above the ACL's slots, repeated list entries), with proved counterexamples. Tie: "
+            "this holds along every trajectory of states. ACL-carrying components: partial (hypothesis excludes num_rules "
+            "above the ACL's slots and repeated list entries; both are open findings with proved counterexamples). Tie: "
             "enum members, Discrete sizes, clamps, status codes, default literals and the threshold categorisers regenerated from "
             "the source (Gen/ObsEnums, Gen/ObsTables; obligations C02_gen_*) + differential rig R-obs on the real classes "
             "(synthetic states) and on PrimaiteGymEnv trajectories (nested and flattened membership).",
@@ -216,7 +216,8 @@ def run_corpus_case(rec: dict) -> Tuple[bool, str]:
     """A corpus witness: constructor config + capture flag + one state. Returns (observation is in the space, detail)."""
     from primaite.game.agent.observations.observation_manager import ObservationManager
     rig.set_capture(bool(rec.get("capture", False)))
-    mgr = ObservationManager(config=rec["cfg"])
+    import copy
+    mgr = ObservationManager(config=copy.deepcopy(rec["cfg"]))
     obj = mgr.obs
     state = _intkeys(rec["state"])
     try:
@@ -302,10 +303,10 @@ def run(ctx: Ctx):
     scen = rig.SCENARIOS if ctx.thorough else rig.SCENARIOS[:6]
     for rel in scen:
         base = rig.load_cfg(rel)
-        variants = [base] + [rig.mutate_cfg(base, rng) for _ in range(ctx.scale(2, 6))]
+        variants = [base] + [rig.mutate_cfg(base, rng) for _ in range(ctx.scale(2, 4))]
         for vi, cfg in enumerate(variants):
             try:
-                res = env_trajectory(ctx, rel, cfg, rng, episodes=ctx.scale(2, 3), steps=ctx.scale(30, 120))
+                res = env_trajectory(ctx, rel, cfg, rng, episodes=ctx.scale(2, 3), steps=ctx.scale(30, 100))
             except Exception as e:  # noqa: BLE001 - an exception out of reset/step IS an observation failure when it comes from observe()
                 import traceback
                 tb = traceback.format_exc()
